@@ -22,7 +22,7 @@ RULE = ("one case = one generated valid world (validity model) x one option tupl
 
 
 PROBES = ["stale_report_replaced", "mkdir_p_output", "single_entry_schedule", "asset_income_only", "asset_fully_sold", "has_lost", "in_crypto_fee", "empty_window",
-          "midyear_from", "large_table", "skewed_large_world", "expense_fractions_over_120", "neg_balances_allowed", "equal_instants_in_world", "tie_transfer_funds_disposal", "tie_buy_and_sell"]
+          "midyear_from", "large_table", "huge_world", "six_assets", "whale_amounts", "skewed_large_world", "expense_fractions_over_120", "neg_balances_allowed", "equal_instants_in_world", "tie_transfer_funds_disposal", "tie_buy_and_sell"]
 
 
 def make_case(seed, facts, index=0, weights=None):
@@ -45,13 +45,20 @@ def make_case(seed, facts, index=0, weights=None):
         "ties": rng.random() < 0.15,
         "few_prices": rng.random() < 0.3,
         "confusable": rng.random() < 0.12,
+        "whales": rng.random() < 0.1,
         "shared_instants": rng.random() < 0.25,
+        "huge": rng.random() < 0.004,
     }
     for flag, prob in sorted((weights or {}).items()):
         swarm[flag] = rng.random() < prob
     if rng.random() < 0.04:
         swarm["n_rows"] = rng.choice([60, 120, 200])
         swarm["n_assets"] = 1
+    if swarm["huge"]:
+        # huge: a couple of thousand rows over two or three assets (size thresholds of "fast paths", buffers that spill, pools that start)
+        swarm["n_rows"] = rng.choice([900, 1100])
+        swarm["n_assets"] = rng.choice([2, 3])
+        swarm["shapes"] = False
     if rng.random() < 0.05:
         # large and skewed: many rows concentrated on the transaction types that share one sheet / one summary line of a report
         # (template row budgets, per-type tables and per-year lists are sized per type group, not per input)
@@ -264,6 +271,12 @@ def _probes(case, res):
                     p["probe:tie_buy_and_sell"] = 1
     if sum(1 for _ in W.all_rows(world)) >= 60:
         p["probe:large_table"] = 1
+    if sum(1 for _ in W.all_rows(world)) >= 1800:
+        p["probe:huge_world"] = 1
+    if len(world["sheets"]) >= 5:
+        p["probe:six_assets"] = 1
+    if any(W.D(r.get("crypto_in") or 0) >= 10**9 for _, t, r in W.all_rows(world) if t == "IN"):
+        p["probe:whale_amounts"] = 1
     if case["swarm"].get("skew"):
         p["probe:skewed_large_world"] = 1
         p["skew:" + case["swarm"]["skew"]] = 1
